@@ -1,7 +1,566 @@
-"""C08 — not implemented yet (fail closed)."""
-from ..model import AnalysisError
+"""C08 Port operators and their writable views — exhaustiveness, forward/inverse agreement, ordering, single writer."""
+
+from __future__ import annotations
+
+import ast
+from dataclasses import dataclass
+from typing import Any, Dict, List, Optional, Set, Tuple
+
+from ..cfg import Node
+from ..core import Ctx, Report, snippet, where
+from ..fold import UNKNOWN, known
+from ..intervals import POS, IntSet, NotInterval, cond_to_intset
+from ..model import AnalysisError, Func, own_nodes, src
+from ..pathsem import PathInfo, feasible, function_paths, resolve_local
+from .common import chain, deep_resolve, mentions, reachable_without_edges
+
 PROPERTY = "C08"
 LEVEL = "other"
-EXPLANATION = "not implemented"
-def run(ctx, rep, tier):
-    raise AnalysisError("rules for C08 are not implemented yet")
+EXPLANATION = (
+    "Decides operator exhaustiveness and operand arity, agreement between the forward map (operands -> ports) and its "
+    "inverse (ports -> operands) on which end of the set an operand determines and with which offset (strict lt/gt, "
+    "inclusive range), one port universe 1..65535 at every site, that order-sensitive selectors only see sorted "
+    "data, that the four stored views have a single complete writer which every writable view reaches, and that the "
+    "inverse handles an empty set. Does not decide the exactness of the range-string codec or the neq arithmetic "
+    "(loop arithmetic over values)."
+)
+ASSUMPTIONS = ["sorted() returns an ascending list; range(a, b) enumerates a..b-1"]
+
+UNIVERSE = IntSet([(1, 65535)])
+
+
+# ------------------------------------------------------------------ abstract port expressions
+@dataclass
+class Bound:
+    kind: str  # 'const' | 'operand'
+    value: int = 0  # const value
+    sel: str = ""  # LOW | HIGH | INTERIOR(k)
+    off: int = 0
+
+    def __repr__(self) -> str:
+        if self.kind == "const":
+            return str(self.value)
+        return f"{self.sel}{self.off:+d}" if self.off else self.sel
+
+
+def selector(e: ast.AST, seq: str) -> Optional[Tuple[str, int]]:
+    """(selector, offset) for seq[0], seq[-1], min(seq), max(seq), seq[k] ± c."""
+    off = 0
+    if isinstance(e, ast.BinOp) and isinstance(e.op, (ast.Add, ast.Sub)) and isinstance(e.right, ast.Constant) and isinstance(e.right.value, int):
+        off = e.right.value if isinstance(e.op, ast.Add) else -e.right.value
+        e = e.left
+    if isinstance(e, ast.Subscript) and src(e.value) == seq and not isinstance(e.slice, ast.Slice):
+        idx = e.slice
+        if isinstance(idx, ast.UnaryOp) and isinstance(idx.op, ast.USub) and isinstance(idx.operand, ast.Constant):
+            k = -idx.operand.value
+        elif isinstance(idx, ast.Constant) and isinstance(idx.value, int):
+            k = idx.value
+        else:
+            return None
+        if k == 0:
+            return ("LOW", off)
+        if k == -1:
+            return ("HIGH", off)
+        return (f"INTERIOR[{k}]", off)
+    if isinstance(e, ast.Call) and isinstance(e.func, ast.Name) and e.func.id in ("min", "max") and len(e.args) == 1 and src(e.args[0]) == seq:
+        return ("LOW" if e.func.id == "min" else "HIGH", off)
+    return None
+
+
+def _universe_of(ctx: Ctx, f: Func, e: ast.AST, env: Dict[str, ast.AST]) -> Optional[IntSet]:
+    """IntSet of `range(a, b)` / `list(range(a, b))` with folded bounds."""
+    e = resolve_local(e, env)
+    if isinstance(e, ast.Call) and isinstance(e.func, ast.Name) and e.func.id == "list" and len(e.args) == 1:
+        e = e.args[0]
+    if isinstance(e, ast.Call) and isinstance(e.func, ast.Name) and e.func.id == "range" and len(e.args) == 2:
+        a, b = ctx.folder.fold(e.args[0], f.module), ctx.folder.fold(e.args[1], f.module)
+        if isinstance(a, int) and isinstance(b, int):
+            return IntSet([(a, b - 1)])
+    return None
+
+
+def forward_shape(ctx: Ctx, f: Func, p: PathInfo, param: str) -> Dict[str, Any]:
+    """Abstract value of the returned port list on one path of _items_to_ports."""
+    r = resolve_local(p.ret, p.env)
+    if isinstance(r, ast.Name) and r.id == param:
+        return {"kind": "IDENT"}
+    if isinstance(r, ast.Call) and isinstance(r.func, ast.Name) and r.func.id in ("list", "sorted") and len(r.args) == 1:
+        inner = r.args[0]
+        if isinstance(inner, ast.Name) and inner.id == param:
+            return {"kind": "IDENT"}
+        if isinstance(inner, ast.Call) and isinstance(inner.func, ast.Name) and inner.func.id == "range" and len(inner.args) == 2:
+            lo = selector(inner.args[0], param)
+            hi = selector(inner.args[1], param)
+            if lo and hi:
+                return {"kind": "INTERVAL", "lo": Bound("operand", sel=lo[0], off=lo[1]), "hi": Bound("operand", sel=hi[0], off=hi[1] - 1)}
+    if isinstance(r, (ast.ListComp, ast.GeneratorExp)) or (isinstance(r, ast.Call) and isinstance(r.func, ast.Name) and r.func.id in ("list", "sorted") and r.args and isinstance(r.args[0], (ast.ListComp, ast.GeneratorExp))):
+        comp = r if isinstance(r, (ast.ListComp, ast.GeneratorExp)) else r.args[0]
+        if len(comp.generators) == 1 and src(comp.elt) == src(comp.generators[0].target):
+            g = comp.generators[0]
+            uni = _universe_of(ctx, f, g.iter, p.env)
+            var = src(g.target)
+            if uni is not None and len(g.ifs) == 1:
+                c = g.ifs[0]
+                if isinstance(c, ast.Compare) and len(c.ops) == 1:
+                    l, op, rr = c.left, c.ops[0], c.comparators[0]
+                    if isinstance(op, ast.NotIn) and src(l) == var and src(rr) == param:
+                        return {"kind": "COMPLEMENT", "universe": uni}
+                    if isinstance(op, ast.In) and src(l) == var and src(rr) == param:
+                        return {"kind": "IDENT"}
+                    names = {ast.Lt: "<", ast.LtE: "<=", ast.Gt: ">", ast.GtE: ">="}
+                    if type(op) in names:
+                        o = names[type(op)]
+                        if src(rr) == var and src(l) != var:
+                            l, rr = rr, l
+                            o = {"<": ">", "<=": ">=", ">": "<", ">=": "<="}[o]
+                        if src(l) == var:
+                            s = selector(rr, param)
+                            if s:
+                                ulo, uhi = uni.bounds()
+                                if o == ">":
+                                    return {"kind": "INTERVAL", "lo": Bound("operand", sel=s[0], off=s[1] + 1), "hi": Bound("const", int(uhi)), "universe": uni}
+                                if o == ">=":
+                                    return {"kind": "INTERVAL", "lo": Bound("operand", sel=s[0], off=s[1]), "hi": Bound("const", int(uhi)), "universe": uni}
+                                if o == "<":
+                                    return {"kind": "INTERVAL", "lo": Bound("const", int(ulo)), "hi": Bound("operand", sel=s[0], off=s[1] - 1), "universe": uni}
+                                if o == "<=":
+                                    return {"kind": "INTERVAL", "lo": Bound("const", int(ulo)), "hi": Bound("operand", sel=s[0], off=s[1]), "universe": uni}
+    return {"kind": "UNKNOWN", "expr": snippet(r) if r is not None else "None"}
+
+
+def inverse_shape(ctx: Ctx, f: Func, p: PathInfo, param: str) -> Dict[str, Any]:
+    r = resolve_local(p.ret, p.env)
+    empty_const = None
+    if isinstance(r, ast.IfExp) and src(r.test) == param:
+        ev = ctx.folder.fold(r.orelse, f.module)
+        empty_const = ev if known(ev) else UNKNOWN
+        r = r.body
+    if isinstance(r, ast.Name) and r.id == param:
+        return {"kind": "IDENT", "empty": empty_const}
+    if isinstance(r, ast.List):
+        sels = [selector(e, param) for e in r.elts]
+        if all(s is not None for s in sels):
+            return {"kind": "OPERANDS", "sels": sels, "empty": empty_const}
+    if isinstance(r, ast.Name):
+        return {"kind": "LOCAL", "name": r.id, "empty": empty_const}
+    return {"kind": "UNKNOWN", "expr": snippet(r) if r is not None else "None", "empty": empty_const}
+
+
+def op_paths(ctx: Ctx, f: Func, operators: List[str]) -> Dict[str, List[PathInfo]]:
+    cfg = ctx.cfg(f)
+    paths = function_paths(cfg)
+    out: Dict[str, List[PathInfo]] = {}
+    for op in list(operators) + ["\0invalid"]:
+        symenv = {"operator": op, "self._operator": op, "self.operator": op}
+        feas = []
+        for p in paths:
+            # only operator atoms decide; other atoms (emptiness) are left open
+            ok = True
+            for test, truth in p.atoms:
+                v = ctx.folder.fold(test, f.module, symenv)
+                if known(v) and bool(v) != truth:
+                    ok = False
+                    break
+            if ok:
+                feas.append(p)
+        out[op] = feas
+    return out
+
+
+def run(ctx: Ctx, rep: Report, tier: str) -> None:  # noqa: C901
+    folder = ctx.folder
+    operators = list(folder.const("helpers", "OPERATORS"))
+    fwd = ctx.func("Port._items_to_ports")
+    inv = ctx.func("Port._ports_to_items")
+    fparam = fwd.params[1]
+    iparam = inv.params[1]
+
+    # ---------------------------------------------------------------- R08.1
+    rep.rule("R08.1")
+    rep.instance()
+    if set(operators) != {"eq", "gt", "lt", "neq", "range"}:
+        rep.violation("helpers.OPERATORS", str(operators), "the operator vocabulary differs from Cisco's five port operators eq, gt, lt, neq, range", "cisco_acl/helpers.py")
+    else:
+        rep.ok("helpers.OPERATORS", str(sorted(operators)))
+    fpaths = op_paths(ctx, fwd, operators)
+    ipaths = op_paths(ctx, inv, operators)
+    for f, table in ((fwd, fpaths), (inv, ipaths)):
+        for op in operators:
+            rep.instance()
+            normal = [p for p in table[op] if not p.raises]
+            if not normal:
+                rep.violation(f.qualname, f"operator {op!r}", "no branch handles this operator: every path raises", where(f), inp=f'Port("{op} 10", protocol="tcp")')
+            else:
+                rep.ok(f"{f.qualname}: operator {op!r}", f"{len(normal)} normal path(s)", where=where(f))
+        rep.instance()
+        bad = [p for p in table["\0invalid"] if not p.raises]
+        if bad:
+            rep.violation(f.qualname, "unknown operator", "an operator outside OPERATORS falls through to a normal return instead of an error", where(f))
+        else:
+            rep.ok(f"{f.qualname}: unknown operator", "every path raises")
+    # operator validation
+    lo = ctx.func("Port._line__operator")
+    rep.instance()
+    okv = False
+    for p in function_paths(ctx.cfg(lo)):
+        if p.raises:
+            for test, truth in p.atoms:
+                t = deep_resolve(test, p.env)
+                if isinstance(t, ast.Compare) and isinstance(t.ops[0], ast.NotIn) and truth:
+                    v = folder.fold(t.comparators[0], lo.module)
+                    if known(v) and set(v) == set(operators):
+                        okv = True
+    if okv:
+        rep.ok("Port._line__operator", "raises unless the first token is in OPERATORS", where=where(lo))
+    else:
+        rep.violation("Port._line__operator", "validation", "the operator token is not validated against OPERATORS", where(lo))
+    # arity
+    li = ctx.func("Port._line__items_to_ints")
+    guards = [n for n in own_nodes(li.node) if isinstance(n, ast.If) and any(isinstance(s, ast.Raise) for s in n.body)]
+    platforms = folder.const("helpers", "PLATFORMS")
+    expected = {}
+    for op in operators:
+        for plat in platforms:
+            if op in ("lt", "gt"):
+                expected[(op, plat)] = IntSet([(1, 1)])
+            elif op == "range":
+                expected[(op, plat)] = IntSet([(2, 2)])
+            elif plat in ("asa", "nxos"):
+                expected[(op, plat)] = IntSet([(1, 1)])
+            else:
+                expected[(op, plat)] = IntSet([(1, POS)])
+    lenvars = set()
+    for g in guards:
+        for x in ast.walk(g.test):
+            if isinstance(x, ast.Call) and isinstance(x.func, ast.Name) and x.func.id == "len" and x.args:
+                lenvars.add(src(x))
+    for (op, plat), want in sorted(expected.items()):
+        rep.instance()
+        symenv = {"operator": op, "self._operator": op, "platform": plat, "self._platform": plat, "self.platform": plat}
+        acc = IntSet([(0, POS)])
+        unknown = None
+        for g in guards:
+            if not lenvars:
+                break
+            try:
+                bad = cond_to_intset(_effective_test(g, li.node), lambda x: src(x) in lenvars, lambda x: folder.fold(x, li.module, symenv))
+            except NotInterval:
+                # guards that do not speak about the length (empty check, name lookup) are handled below
+                if src(g.test) in ("not items", f"not {li.params[1]}"):
+                    bad = IntSet([(0, 0)])
+                else:
+                    continue
+            acc = acc.intersect(bad.complement())
+        if acc == want:
+            rep.ok(f"Port._line__items_to_ints: operands for {op!r} on {plat}", f"accepted count {acc}", where=where(li))
+        else:
+            rep.violation("Port._line__items_to_ints", f"operand count for {op!r} on {plat}: {acc}", f"expected {want} (lt/gt one operand, range two, eq/neq one on asa/nxos, at least one on ios)", where(li), inp=f'Port("{op} 1 2 3", platform="{plat}", protocol="tcp")')
+
+    # ---------------------------------------------------------------- R08.2 forward / inverse end agreement
+    rep.rule("R08.2")
+    shapes_f: Dict[str, Dict[str, Any]] = {}
+    shapes_i: Dict[str, Dict[str, Any]] = {}
+    for op in operators:
+        nf = [p for p in fpaths[op] if not p.raises]
+        ni = [p for p in ipaths[op] if not p.raises]
+        if nf:
+            shapes_f[op] = forward_shape(ctx, fwd, nf[0], fparam)
+        if ni:
+            shapes_i[op] = inverse_shape(ctx, inv, ni[-1], iparam)
+    want_fwd = {
+        "eq": ("IDENT", None, None),
+        "gt": ("INTERVAL", ("LOW", +1), "UHI"),
+        "lt": ("INTERVAL", "ULO", ("LOW", -1)),
+        "range": ("INTERVAL", ("LOW", 0), ("HIGH", 0)),
+        "neq": ("COMPLEMENT", None, None),
+    }
+    for op in operators:
+        if op not in shapes_f or op not in want_fwd:
+            continue
+        rep.instance()
+        sh = shapes_f[op]
+        kind, wlo, whi = want_fwd[op]
+        if sh["kind"] == "UNKNOWN":
+            rep.violation(fwd.qualname, f"operator {op!r}: {sh['expr']}", "the port set of this operator is not in a recognised form (identity, range of the operands, filtered universe): cannot relate it to its inverse", where(fwd))
+            continue
+        if sh["kind"] != kind:
+            rep.violation(fwd.qualname, f"operator {op!r} -> {sh['kind']}", f"Cisco meaning is {kind}", where(fwd), inp=f'Port("{op} 80", protocol="tcp").ports')
+            continue
+        if kind == "INTERVAL":
+            lo_b, hi_b = sh["lo"], sh["hi"]
+
+            def okb(b: Bound, w) -> bool:
+                if w == "UHI":
+                    return b.kind == "const" and b.value == 65535
+                if w == "ULO":
+                    return b.kind == "const" and b.value == 1
+                # for single-operand operators items[0] == items[-1]: LOW and HIGH denote the same operand
+                if op in ("gt", "lt"):
+                    return b.kind == "operand" and b.sel in ("LOW", "HIGH") and b.off == w[1]
+                return b.kind == "operand" and (b.sel, b.off) == w
+
+            if okb(lo_b, wlo) and okb(hi_b, whi):
+                rep.ok(f"{fwd.qualname}: {op!r} = [{lo_b}, {hi_b}]", "strict for lt/gt, inclusive for range", where=where(fwd))
+            else:
+                rep.violation(fwd.qualname, f"operator {op!r} denotes [{lo_b}, {hi_b}]", "Cisco: gt and lt are strict, range is inclusive on both operands, within 1..65535", where(fwd), inp=f'Port("{op} 80", protocol="tcp").ports')
+                continue
+        else:
+            rep.ok(f"{fwd.qualname}: {op!r}", kind, where=where(fwd))
+        # inverse
+        if op not in shapes_i:
+            continue
+        rep.instance()
+        ish = shapes_i[op]
+        if kind == "IDENT":
+            if ish["kind"] == "IDENT":
+                rep.ok(f"{inv.qualname}: {op!r}", "identity both ways", where=where(inv))
+            else:
+                rep.violation(inv.qualname, f"operator {op!r}", "forward map is the identity but the inverse is not", where(inv))
+        elif kind == "COMPLEMENT":
+            rep.ok(f"{inv.qualname}: {op!r}", "complement (arithmetic not decided)", nontrivial=False, where=where(inv))
+        elif kind == "INTERVAL":
+            if ish["kind"] != "OPERANDS":
+                rep.violation(inv.qualname, f"operator {op!r}: {ish.get('expr', ish['kind'])}", "the operands are not recovered from the ends of the port list", where(inv))
+                continue
+            need = []
+            if sh["lo"].kind == "operand":
+                need.append(("LOW", -sh["lo"].off))
+            if sh["hi"].kind == "operand":
+                need.append(("HIGH", -sh["hi"].off))
+            got = list(ish["sels"])
+            interior = [g for g in got if g[0].startswith("INTERIOR")]
+            if interior:
+                rep.violation(inv.qualname, f"operator {op!r}: operand from ports{interior[0][0][8:]}{interior[0][1]:+d}", f"the forward map fixes the {'/'.join(n[0] for n in need)} end of the set; an interior position depends on the length of the list", where(inv), inp=f'p = Port("{op} 5", protocol="tcp"); p.ports = p.ports')
+            elif sorted(got) != sorted(need):
+                rep.violation(inv.qualname, f"operator {op!r}: operands {got}", f"forward map [{sh['lo']}, {sh['hi']}] requires operands {need} (end and opposite offset)", where(inv), inp=f'p = Port("{op} 5", protocol="tcp"); p.ports = p.ports')
+            else:
+                rep.ok(f"{inv.qualname}: {op!r} operands {got}", f"inverse of [{sh['lo']}, {sh['hi']}]", where=where(inv))
+    rep.floor(6, "operator branches (forward + inverse)")
+
+    # ---------------------------------------------------------------- R08.6 empty inverse
+    rep.rule("R08.6")
+    icfg = ctx.cfg(inv)
+    for n in icfg.live:
+        if n.ast is None or n.kind not in ("stmt",):
+            continue
+        sels = []
+        for x in ast.walk(n.ast):
+            if isinstance(x, ast.Subscript) and src(x.value) == iparam and not isinstance(x.slice, ast.Slice):
+                sels.append(x)
+        if not sels:
+            continue
+        rep.instance()
+        guarded_all = True
+        for x in sels:
+            g = False
+            p = getattr(x, "_parent", None)
+            child = x
+            while p is not None and p is not n.ast:
+                if isinstance(p, ast.IfExp) and src(p.test) == iparam and child is p.body:
+                    g = True
+                child = p
+                p = getattr(p, "_parent", None)
+            if isinstance(n.ast, ast.Return) and isinstance(n.ast.value, ast.IfExp) and src(n.ast.value.test) == iparam:
+                body_nodes = set(map(id, ast.walk(n.ast.value.body)))
+                if id(x) in body_nodes:
+                    g = True
+            if not g:
+                cut = {(c.id, "T") for c in icfg.live if c.kind == "cond" and src(c.ast) in (iparam, f"len({iparam})")}
+                if cut and n not in reachable_without_edges(icfg, icfg.entry, cut):
+                    g = True
+            guarded_all = guarded_all and g
+        if guarded_all:
+            rep.ok(f"{inv.qualname}: {snippet(n.ast, 60)}", "end selectors are guarded by a non-empty test", where=where(inv, n.ast))
+        else:
+            rep.violation(inv.qualname, snippet(n.ast), "an end selector is applied to a possibly empty port list (gt 65535 / lt 1 denote no port): IndexError on write-back", where(inv, n.ast), inp='p = Port("gt 65535", protocol="tcp"); p.ports = p.ports')
+    for op in ("gt", "lt"):
+        ish = shapes_i.get(op)
+        if ish and ish.get("empty") is not None:
+            rep.instance()
+            ev = ish["empty"]
+            okc = isinstance(ev, list) and len(ev) == 1 and isinstance(ev[0], int) and ((op == "gt" and ev[0] >= 65535) or (op == "lt" and ev[0] <= 1))
+            if okc:
+                rep.ok(f"{inv.qualname}: empty set under {op!r} -> {ev}", "boundary operand whose forward image is empty", where=where(inv))
+            else:
+                rep.violation(inv.qualname, f"empty set under {op!r} -> {ev}", "the operand chosen for an empty set does not denote the empty set", where(inv))
+
+    # ---------------------------------------------------------------- R08.3 one universe
+    rep.rule("R08.3")
+    sites: List[Tuple[str, IntSet, ast.AST, Func]] = []
+    for f in (fwd, inv):
+        for n in own_nodes(f.node):
+            if isinstance(n, ast.Call) and isinstance(n.func, ast.Name) and n.func.id == "range" and len(n.args) == 2:
+                a, b = folder.fold(n.args[0], f.module), folder.fold(n.args[1], f.module)
+                if isinstance(a, int) and isinstance(b, int) and b - a > 1000:
+                    sites.append((f.qualname, IntSet([(a, b - 1)]), n, f))
+    stp = ctx.func("helpers.string_to_ports")
+    for n in own_nodes(stp.node):
+        if isinstance(n, (ast.ListComp, ast.SetComp)):
+            for g in n.generators:
+                for c in g.ifs:
+                    if not any(isinstance(x, ast.Compare) for x in ast.walk(c)):
+                        continue
+                    try:
+                        s_ = cond_to_intset(c, lambda x: src(x) == src(g.target), lambda x: folder.fold(x, stp.module))
+                        if s_ != IntSet.all():
+                            sites.append((stp.qualname, s_, c, stp))
+                    except NotInterval:
+                        pass
+    rep.instance(len(sites))
+    for q, s_, n, f in sites:
+        if s_ == UNIVERSE:
+            rep.ok(f"{q}: {snippet(n)}", "universe 1..65535", where=where(f, n))
+        else:
+            rep.violation(q, f"{snippet(n)} = {s_}", "the set of all ports is 1..65535 at every site", where(f, n))
+    rep.floor(3, "port-universe sites")
+
+    # ---------------------------------------------------------------- R08.4 sortedness
+    rep.rule("R08.4")
+    uses_end = {}
+    for f, prm in ((fwd, fparam), (inv, iparam)):
+        uses_end[f] = any(isinstance(x, ast.Subscript) and src(x.value) == prm and not isinstance(x.slice, ast.Slice) for x in own_nodes(f.node))
+    for f, prm in ((fwd, fparam), (inv, iparam)):
+        if not uses_end[f]:
+            continue
+        for caller in ctx.prog.funcs:
+            for e in ctx.cg.all_edges(caller):
+                if e.target is f and e.kind == "call" and isinstance(e.site, ast.Call):
+                    rep.instance()
+                    arg = e.site.args[0] if e.site.args else None
+                    srt, why = _is_sorted(ctx, caller, arg)
+                    if srt:
+                        rep.ok(f"{caller.qualname} -> {f.name}({snippet(arg, 30)})", why, where=where(caller, e.site))
+                    else:
+                        rep.violation(caller.qualname, f"{f.name}({snippet(arg) if arg is not None else ''})", f"{f.name} reads the first/last element as the lowest/highest port, but the argument is not known to be sorted: {why}", where(caller, e.site), inp='p = Port("range 7 9", protocol="tcp"); p.sport = p.sport')
+    rep.floor(2, "call sites of the order-sensitive helpers")
+
+    # ---------------------------------------------------------------- R08.5 single writer
+    rep.rule("R08.5")
+    views = ["_operator", "_items", "_ports", "_sport"]
+    port = ctx.cls("Port")
+    ls = ctx.func("Port.line.setter")
+    writers: Dict[str, Set[str]] = {v: set() for v in views}
+    for f in ctx.prog.funcs:
+        for n in own_nodes(f.node):
+            tgts: List[ast.AST] = []
+            if isinstance(n, ast.Assign):
+                tgts = list(n.targets)
+            elif isinstance(n, (ast.AugAssign, ast.AnnAssign)):
+                tgts = [n.target]
+            for t in tgts:
+                for x in ast.walk(t):
+                    if isinstance(x, ast.Attribute) and x.attr in views and isinstance(x.ctx, ast.Store):
+                        bt = ctx.types.expr_type(x.value, f)
+                        if any(m[0] == "cls" and m[1].is_subclass_of(port) for m in ([bt] if bt[0] != "union" else bt[1])):
+                            writers[x.attr].add(f.qualname)
+            if isinstance(n, ast.Call) and isinstance(n.func, ast.Name) and n.func.id == "setattr" and len(n.args) >= 2:
+                nm = n.args[1]
+                if isinstance(nm, ast.Constant) and nm.value in views:
+                    writers[nm.value].add(f.qualname)
+    for v in views:
+        rep.instance()
+        extra = writers[v] - {ls.qualname}
+        if extra:
+            rep.violation(sorted(extra)[0], f"stores {v}", f"{v} is written outside Port.line setter: items/ports/sport/line can diverge", "cisco_acl/port.py")
+        elif not writers[v]:
+            rep.violation(ls.qualname, f"{v}", "the stored view is never written", where(ls))
+        else:
+            rep.ok(f"{v}", "only Port.line setter stores it", where=where(ls))
+    lcfg = ctx.cfg(ls)
+    for p in function_paths(lcfg):
+        if p.raises:
+            continue
+        stored = {}
+        for node, lab in p.nodes:
+            if node.kind == "stmt" and isinstance(node.ast, ast.Assign):
+                for t in node.ast.targets:
+                    if isinstance(t, ast.Attribute) and src(t.value) == "self" and t.attr in views:
+                        stored[t.attr] = node.ast.value
+        rep.instance()
+        miss = [v for v in views if v not in stored]
+        if miss:
+            rep.violation(ls.qualname, f"path stores {sorted(stored)}", f"a normal path leaves {miss} with its previous value", where(ls))
+            continue
+        # _sport from the same value as _ports; _ports from _items_to_ports(<what is stored in _items>)
+        sp = deep_resolve(stored["_sport"], p.env)
+        po = deep_resolve(stored["_ports"], p.env)
+        it = deep_resolve(stored["_items"], p.env)
+        cons_ok = True
+        if not (isinstance(po, ast.List) and not po.elts):
+            if not (isinstance(sp, ast.Call) and sp.args and src(sp.args[0]) == src(po)):
+                cons_ok = False
+                rep.violation(ls.qualname, f"_sport = {snippet(stored['_sport'])}", "the range string is not computed from the list stored in _ports", where(ls))
+            if not (isinstance(po, ast.Call) and src(po.func).endswith("_items_to_ports") and po.args and src(po.args[0]) == src(it)):
+                cons_ok = False
+                rep.violation(ls.qualname, f"_ports = {snippet(stored['_ports'])}", "the port list is not computed from the operands stored in _items", where(ls))
+        if cons_ok:
+            rep.ok(f"{ls.qualname}: path storing all four views", "_ports = f(_items), _sport = g(_ports)", where=where(ls))
+    for nm in ("items", "ports", "sport", "protocol"):
+        st = port.lookup_setter(nm)
+        if st is None:
+            continue
+        rep.instance()
+        scfg = ctx.cfg(st)
+
+        def reaches_line(n: Node) -> bool:
+            if n.kind == "stmt" and isinstance(n.ast, ast.Assign):
+                for t in n.ast.targets:
+                    if isinstance(t, ast.Attribute) and src(t.value) == "self" and t.attr in ("line", "ports", "items", "sport"):
+                        return t.attr != nm
+            return False
+
+        if scfg.all_paths_pass(scfg.entry, scfg.exit, reaches_line, labels_avoid=("exc",)):
+            rep.ok(f"Port.{nm} setter", "every normal path re-enters the line setter (directly or through another view)", where=where(st))
+        else:
+            rep.violation(st.qualname, "normal path without self.line = ...", "a writable view can return without rebuilding the other views from text", where(st))
+
+
+def _effective_test(g: ast.If, fn: ast.AST) -> ast.AST:
+    """g.test conjoined with the tests of the enclosing `if` statements (negated for else arms)."""
+    parts = [g.test]
+    child: ast.AST = g
+    p = getattr(g, "_parent", None)
+    while p is not None and p is not fn:
+        if isinstance(p, ast.If):
+            if child in p.body:
+                parts.append(p.test)
+            elif child in p.orelse:
+                parts.append(ast.UnaryOp(op=ast.Not(), operand=p.test))
+        child = p
+        p = getattr(p, "_parent", None)
+    if len(parts) == 1:
+        return parts[0]
+    return ast.BoolOp(op=ast.And(), values=list(reversed(parts)))
+
+
+def _is_sorted(ctx: Ctx, f: Func, arg: Optional[ast.AST], depth: int = 0) -> Tuple[bool, str]:
+    if arg is None:
+        return False, "no argument"
+    if isinstance(arg, ast.Call) and isinstance(arg.func, ast.Name) and arg.func.id == "sorted":
+        return True, "sorted(...)"
+    if isinstance(arg, ast.Name) and depth < 4:
+        defs = []
+        for n in own_nodes(f.node):
+            if isinstance(n, ast.Assign) and any(isinstance(t, ast.Name) and t.id == arg.id for t in n.targets):
+                defs.append(n.value)
+            elif isinstance(n, ast.AnnAssign) and isinstance(n.target, ast.Name) and n.target.id == arg.id and n.value is not None:
+                defs.append(n.value)
+        if arg.id in f.params and not defs:
+            return False, f"parameter {arg.id} is passed through unsorted"
+        if arg.id in f.params:
+            # re-bound parameter: the binding that reaches the call must be the sorted one (last assignment)
+            defs = defs[-1:]
+        if defs:
+            res = [_is_sorted(ctx, f, d, depth + 1) for d in defs]
+            if all(r[0] for r in res):
+                return True, f"{arg.id} = " + res[0][1]
+            return False, next(r[1] for r in res if not r[0])
+    if isinstance(arg, ast.Call) and depth < 4:
+        for e in ctx.cg.all_edges(f):
+            if e.site is arg and isinstance(e.target, Func) and e.kind == "call" and not e.weak:
+                g = e.target
+                rets = [n.value for n in own_nodes(g.node) if isinstance(n, ast.Return) and n.value is not None]
+                if rets and all(_is_sorted(ctx, g, r, depth + 1)[0] for r in rets):
+                    return True, f"{g.qualname} returns sorted(...)"
+                return False, f"{g.qualname} does not return a sorted list"
+    return False, f"{snippet(arg)} has unknown order"
